@@ -11,7 +11,7 @@ from models import Some, NONE, Ok, Err, deref
 from natives_fs import PStr, text_of
 
 # the scripted tree: (path, depth, is_dir); names with blanks, quotes, a leading dash, braces
-TREE = [("r", 0, True), ("r/a b", 1, False), ("r/d", 1, True), ("r/d/-n", 2, False), ("r/e'{}", 1, False)]
+TREE = [("r", 0, True), ("r/a b", 1, False), ("r/d", 1, True), ("r/d/-n", 2, False), ("r/e'{}\udce9", 1, False)]     # the last name ends in a byte that is not UTF-8 (0xE9, carried as a lone surrogate)
 TEMPLATES = ["{}", "a{}", "{}{}", "x", "-n", "{} {}", ""]
 
 
@@ -98,7 +98,7 @@ def make_natives(state, sym):
         state["ntry"] += 1
         # assumption: a single path always fits into a fresh command line (PATH_MAX is far below any ARG_MAX)
         fresh = len(c.fields[1]) == state.get("nfixed", 0)        # no path in this command yet
-        fits = True if fresh else (m.decide(sym["fits"][k]) if k < len(sym["fits"]) else True)
+        fits = True if (fresh or state.get("all_fit")) else (m.decide(sym["fits"][k]) if k < len(sym["fits"]) else True)
         state["verdicts"].append(fits)
         if not fits:
             return Err(Opaque("E2BIG"))
@@ -157,7 +157,7 @@ def run_one(m, funcs, index, enums, expr_tokens, depth_sym, state):
 
 
 def explore(kind, funcs, index, enums):
-    """kind: 'multi', 'multi_dir', 'multi_quit', 'single', 'single_dir'"""
+    """kind: 'multi', 'multi_dir', 'multi_quit', 'multi_two', 'single', 'single_dir'"""
     res = {"kind": kind, "paths": 0, "violations": [], "unsupported": {}, "samples": [], "checks": 0}
     nent = len(TREE)
     sym = {"fits": [z3.Bool("fits%d" % i) for i in range(2 * nent)], "out": [z3.Int("out%d" % i) for i in range(2 * nent + 2)]}
@@ -170,6 +170,9 @@ def explore(kind, funcs, index, enums):
     m.pending = [[]]
     if kind.startswith("multi"):
         expr = ["-execdir" if kind == "multi_dir" else "-exec", "cmd", "fixed", "{}", "+"] + (["-name?"] if False else [])
+        if kind == "multi_two":
+            # two batch actions: both flush at the end of the walk under one MatcherIO (all paths fit: the verdicts are not symbolic here)
+            expr = ["-exec", "cmd", "fixed", "{}", "+", "-exec", "cmd2", "fixed", "{}", "+"]
         if kind == "multi_quit":
             expr = ["-exec", "cmd", "{}", "+", "-name", "d", "-quit"] if False else ["-exec", "cmd", "{}", "+", "-quit"]
     else:
@@ -178,6 +181,7 @@ def explore(kind, funcs, index, enums):
     while m.pending:
         m.reset_path(m.pending.pop())
         state.update(wd={}, order=[], pos=0, yielded=[], skips=[], commands=[], ntry=0, verdicts=[], runs=[], depth_first=False)
+        state["all_fit"] = kind == "multi_two"
         try:
             out = run_one(m, funcs, index, enums, expr, depth if kind in ("multi", "multi_dir", "single") else None, state)
         except RustPanic as e:
@@ -218,6 +222,15 @@ def check_multi(kind, out, state, m):
             bad.append({"what": "-quit not propagated"})
         return bad
     fixed = ["fixed"]
+    if kind == "multi_two":
+        for prog in ("cmd", "cmd2"):
+            mine = [r for r in runs if r["prog"] == prog]
+            if [a for r in mine for a in r["argv"][1:]] != visited or any(r["argv"][:1] != fixed for r in mine):
+                bad.append({"what": "%s received %r, expected every visited path once after the fixed argument" % (prog, [r["argv"] for r in mine])})
+        failed = any(r["outcome"] != 0 for r in runs)
+        if (out["ret"] != 0) != failed:
+            bad.append({"what": "find's status %r although %s (outcomes %r)" % (out["ret"], "an invocation failed" if failed else "everything succeeded", [r["outcome"] for r in runs])})
+        return bad
     # which paths were dropped because they do not fit even alone (two consecutive rejections)
     delivered, dropped, k = [], [], 0
     for p in visited:
